@@ -133,7 +133,10 @@ func isBytesBuffer(r io.Reader) bool {
 //@ func (*decoderState).consumeWhitespace
 //@ property C05 C16 C20
 //@ requires d != nil && dbInv(d.prevStart, d.prevEnd, len(d.buf), d.baseOffset) && d.prevStart <= pos && pos <= len(d.buf) && d.baseOffset+int64(len(d.buf)) < 1<<61
-//@ requires nsLocalOK(d.Names.offsets, d.Names.unquotedNames) && nsRemoteOK(d.Names.offsets, len(d.buf)) && distinctArrays(d.Names.unquotedNames, d.buf) && nsWindowQuoted(d.Names.offsets, d.buf, d.prevStart)
+//@ requires names-local: nsLocalOK(d.Names.offsets, d.Names.unquotedNames)
+//@ requires names-remote: nsRemoteOK(d.Names.offsets, len(d.buf))
+//@ requires names-distinct: distinctArrays(d.Names.unquotedNames, d.buf)
+//@ requires names-window: nsWindowQuoted(d.Names.offsets, d.buf, d.prevStart)
 //@ modifies d.buf, d.buf[:cap(d.buf)], d.prevStart, d.prevEnd, d.baseOffset, d.Names.unquotedNames, d.Names.unquotedNames[:cap(d.Names.unquotedNames)], d.Names.offsets[:]
 //@ ensures inv: dbInv(d.prevStart, d.prevEnd, len(d.buf), d.baseOffset) && d.prevStart <= newPos && newPos <= len(d.buf) && d.baseOffset+int64(len(d.buf)) < 1<<61
 //@ ensures start: d.baseOffset+int64(d.prevStart) == old(d.baseOffset)+int64(old(d.prevStart))
@@ -168,7 +171,10 @@ func isBytesBuffer(r io.Reader) bool {
 //@ func (*decoderState).consumeLiteral
 //@ property C05 C16 C20
 //@ requires d != nil && dbInv(d.prevStart, d.prevEnd, len(d.buf), d.baseOffset) && d.prevStart <= pos && pos <= len(d.buf) && d.baseOffset+int64(len(d.buf)) < 1<<61
-//@ requires nsLocalOK(d.Names.offsets, d.Names.unquotedNames) && nsRemoteOK(d.Names.offsets, len(d.buf)) && distinctArrays(d.Names.unquotedNames, d.buf) && nsWindowQuoted(d.Names.offsets, d.buf, d.prevStart)
+//@ requires names-local: nsLocalOK(d.Names.offsets, d.Names.unquotedNames)
+//@ requires names-remote: nsRemoteOK(d.Names.offsets, len(d.buf))
+//@ requires names-distinct: distinctArrays(d.Names.unquotedNames, d.buf)
+//@ requires names-window: nsWindowQuoted(d.Names.offsets, d.buf, d.prevStart)
 //@ modifies d.buf, d.buf[:cap(d.buf)], d.prevStart, d.prevEnd, d.baseOffset, d.Names.unquotedNames, d.Names.unquotedNames[:cap(d.Names.unquotedNames)], d.Names.offsets[:]
 //@ ensures inv: dbInv(d.prevStart, d.prevEnd, len(d.buf), d.baseOffset) && d.prevStart <= newPos && newPos <= len(d.buf) && d.baseOffset+int64(len(d.buf)) < 1<<61
 //@ ensures start: d.baseOffset+int64(d.prevStart) == old(d.baseOffset)+int64(old(d.prevStart))
@@ -200,7 +206,10 @@ func isBytesBuffer(r io.Reader) bool {
 //@ property C05 C16 C20
 //@ requires flags != nil
 //@ requires d != nil && dbInv(d.prevStart, d.prevEnd, len(d.buf), d.baseOffset) && d.prevStart <= pos && pos <= len(d.buf) && d.baseOffset+int64(len(d.buf)) < 1<<61
-//@ requires nsLocalOK(d.Names.offsets, d.Names.unquotedNames) && nsRemoteOK(d.Names.offsets, len(d.buf)) && distinctArrays(d.Names.unquotedNames, d.buf) && nsWindowQuoted(d.Names.offsets, d.buf, d.prevStart)
+//@ requires names-local: nsLocalOK(d.Names.offsets, d.Names.unquotedNames)
+//@ requires names-remote: nsRemoteOK(d.Names.offsets, len(d.buf))
+//@ requires names-distinct: distinctArrays(d.Names.unquotedNames, d.buf)
+//@ requires names-window: nsWindowQuoted(d.Names.offsets, d.buf, d.prevStart)
 //@ modifies d.buf, d.buf[:cap(d.buf)], d.prevStart, d.prevEnd, d.baseOffset, d.Names.unquotedNames, d.Names.unquotedNames[:cap(d.Names.unquotedNames)], d.Names.offsets[:]
 //@ ensures inv: dbInv(d.prevStart, d.prevEnd, len(d.buf), d.baseOffset) && d.prevStart <= newPos && newPos <= len(d.buf) && d.baseOffset+int64(len(d.buf)) < 1<<61
 //@ ensures start: d.baseOffset+int64(d.prevStart) == old(d.baseOffset)+int64(old(d.prevStart))
@@ -232,7 +241,10 @@ func isBytesBuffer(r io.Reader) bool {
 //@ func (*decoderState).consumeNumber
 //@ property C05 C10 C16 C20
 //@ requires d != nil && dbInv(d.prevStart, d.prevEnd, len(d.buf), d.baseOffset) && d.prevStart <= pos && pos <= len(d.buf) && d.baseOffset+int64(len(d.buf)) < 1<<61
-//@ requires nsLocalOK(d.Names.offsets, d.Names.unquotedNames) && nsRemoteOK(d.Names.offsets, len(d.buf)) && distinctArrays(d.Names.unquotedNames, d.buf) && nsWindowQuoted(d.Names.offsets, d.buf, d.prevStart)
+//@ requires names-local: nsLocalOK(d.Names.offsets, d.Names.unquotedNames)
+//@ requires names-remote: nsRemoteOK(d.Names.offsets, len(d.buf))
+//@ requires names-distinct: distinctArrays(d.Names.unquotedNames, d.buf)
+//@ requires names-window: nsWindowQuoted(d.Names.offsets, d.buf, d.prevStart)
 //@ modifies d.buf, d.buf[:cap(d.buf)], d.prevStart, d.prevEnd, d.baseOffset, d.Names.unquotedNames, d.Names.unquotedNames[:cap(d.Names.unquotedNames)], d.Names.offsets[:]
 //@ ensures inv: dbInv(d.prevStart, d.prevEnd, len(d.buf), d.baseOffset) && d.prevStart <= newPos && newPos <= len(d.buf) && d.baseOffset+int64(len(d.buf)) < 1<<61
 //@ ensures start: d.baseOffset+int64(d.prevStart) == old(d.baseOffset)+int64(old(d.prevStart))
@@ -316,7 +328,10 @@ func asSuffixErr(err error) *pointerSuffixError {
 //@ property C05 C16 C20
 //@ requires flags != nil && 1 <= depth && depth <= maxNestingDepth+1
 //@ requires d != nil && dbInv(d.prevStart, d.prevEnd, len(d.buf), d.baseOffset) && d.prevStart <= pos && pos < len(d.buf) && d.baseOffset+int64(len(d.buf)) < 1<<61
-//@ requires nsLocalOK(d.Names.offsets, d.Names.unquotedNames) && nsRemoteOK(d.Names.offsets, len(d.buf)) && distinctArrays(d.Names.unquotedNames, d.buf) && nsWindowQuoted(d.Names.offsets, d.buf, d.prevStart)
+//@ requires names-local: nsLocalOK(d.Names.offsets, d.Names.unquotedNames)
+//@ requires names-remote: nsRemoteOK(d.Names.offsets, len(d.buf))
+//@ requires names-distinct: distinctArrays(d.Names.unquotedNames, d.buf)
+//@ requires names-window: nsWindowQuoted(d.Names.offsets, d.buf, d.prevStart)
 //@ modifies *flags, d.buf, d.buf[:cap(d.buf)], d.prevStart, d.prevEnd, d.baseOffset, d.Names.unquotedNames, d.Names.unquotedNames[:cap(d.Names.unquotedNames)], d.Names.offsets[:], d.Namespaces, d.Namespaces[:cap(d.Namespaces)]
 //@ ensures inv: dbInv(d.prevStart, d.prevEnd, len(d.buf), d.baseOffset) && d.prevStart <= newPos && newPos <= len(d.buf) && d.baseOffset+int64(len(d.buf)) < 1<<61
 //@ ensures start: d.baseOffset+int64(d.prevStart) == old(d.baseOffset)+int64(old(d.prevStart))
@@ -346,7 +361,10 @@ func asSuffixErr(err error) *pointerSuffixError {
 //@ property C05 C16 C20
 //@ requires flags != nil && 1 <= depth && depth <= maxNestingDepth+1
 //@ requires d != nil && dbInv(d.prevStart, d.prevEnd, len(d.buf), d.baseOffset) && d.prevStart <= pos && pos < len(d.buf) && d.buf[pos] == '[' && d.baseOffset+int64(len(d.buf)) < 1<<61
-//@ requires nsLocalOK(d.Names.offsets, d.Names.unquotedNames) && nsRemoteOK(d.Names.offsets, len(d.buf)) && distinctArrays(d.Names.unquotedNames, d.buf) && nsWindowQuoted(d.Names.offsets, d.buf, d.prevStart)
+//@ requires names-local: nsLocalOK(d.Names.offsets, d.Names.unquotedNames)
+//@ requires names-remote: nsRemoteOK(d.Names.offsets, len(d.buf))
+//@ requires names-distinct: distinctArrays(d.Names.unquotedNames, d.buf)
+//@ requires names-window: nsWindowQuoted(d.Names.offsets, d.buf, d.prevStart)
 //@ modifies *flags, d.buf, d.buf[:cap(d.buf)], d.prevStart, d.prevEnd, d.baseOffset, d.Names.unquotedNames, d.Names.unquotedNames[:cap(d.Names.unquotedNames)], d.Names.offsets[:], d.Namespaces, d.Namespaces[:cap(d.Namespaces)]
 //@ ensures inv: dbInv(d.prevStart, d.prevEnd, len(d.buf), d.baseOffset) && d.prevStart <= newPos && newPos <= len(d.buf) && d.baseOffset+int64(len(d.buf)) < 1<<61
 //@ ensures start: d.baseOffset+int64(d.prevStart) == old(d.baseOffset)+int64(old(d.prevStart))
@@ -378,7 +396,10 @@ func asSuffixErr(err error) *pointerSuffixError {
 //@ property C05 C16 C20
 //@ requires flags != nil && 1 <= depth && depth <= maxNestingDepth+1
 //@ requires d != nil && dbInv(d.prevStart, d.prevEnd, len(d.buf), d.baseOffset) && d.prevStart <= pos && pos < len(d.buf) && d.buf[pos] == '{' && d.baseOffset+int64(len(d.buf)) < 1<<61
-//@ requires nsLocalOK(d.Names.offsets, d.Names.unquotedNames) && nsRemoteOK(d.Names.offsets, len(d.buf)) && distinctArrays(d.Names.unquotedNames, d.buf) && nsWindowQuoted(d.Names.offsets, d.buf, d.prevStart)
+//@ requires names-local: nsLocalOK(d.Names.offsets, d.Names.unquotedNames)
+//@ requires names-remote: nsRemoteOK(d.Names.offsets, len(d.buf))
+//@ requires names-distinct: distinctArrays(d.Names.unquotedNames, d.buf)
+//@ requires names-window: nsWindowQuoted(d.Names.offsets, d.buf, d.prevStart)
 //@ modifies *flags, d.buf, d.buf[:cap(d.buf)], d.prevStart, d.prevEnd, d.baseOffset, d.Names.unquotedNames, d.Names.unquotedNames[:cap(d.Names.unquotedNames)], d.Names.offsets[:], d.Namespaces, d.Namespaces[:cap(d.Namespaces)]
 //@ ensures inv: dbInv(d.prevStart, d.prevEnd, len(d.buf), d.baseOffset) && d.prevStart <= newPos && newPos <= len(d.buf) && d.baseOffset+int64(len(d.buf)) < 1<<61
 //@ ensures start: d.baseOffset+int64(d.prevStart) == old(d.baseOffset)+int64(old(d.prevStart))
@@ -409,3 +430,57 @@ func asSuffixErr(err error) *pointerSuffixError {
 //@ loop 0 invariant balanced: len(d.Namespaces) == old(len(d.Namespaces))+ite(old(d.Flags.Get(jsonflags.AllowDuplicateNames)), 0, 1) && sameOrFresh(d.Namespaces, old(d.Namespaces))
 //@ loop 0 invariant anchor: pos-d.prevStart > old(pos)-old(d.prevStart)
 //@ loop 0 invariant ns: d.Flags.Get(jsonflags.AllowDuplicateNames) == old(d.Flags.Get(jsonflags.AllowDuplicateNames))
+
+// ---------------------------------------------------------------- token path
+
+// invalidatePreviousRead overwrites the first byte of the previously returned
+// token or value (streaming readers only) and moves prevStart to prevEnd; nothing
+// else changes.
+//
+//@ func (*decodeBuffer).invalidatePreviousRead
+//@ property C05 C16 C20
+//@ requires d != nil && 0 <= d.prevStart && d.prevStart <= d.prevEnd && d.prevEnd <= len(d.buf)
+//@ modifies d.prevStart, d.buf[d.prevStart:d.prevStart+1]
+//@ ensures bounds: 0 <= d.prevStart && d.prevStart <= d.prevEnd && d.prevEnd == old(d.prevEnd) && (d.prevStart == old(d.prevStart) || d.prevStart == d.prevEnd)
+//@ ensures bytes: vForall(0, len(d.buf), func(j int) bool { return d.buf[j] == old(d.buf[j]) || (j == old(d.prevStart) && d.buf[j] == invalidateBufferByte && d.prevStart == d.prevEnd && j < d.prevEnd) })
+//@ ensures nil-reader: d.rd == nil ==> d.prevStart == old(d.prevStart) && unchanged(d.buf)
+
+// checkDelim: nil exactly when delim is the delimiter the grammar requires
+// before a token of kind next; otherwise a non-nil error.
+//
+//@ func (*decoderState).checkDelim
+//@ trusted NOT PROVED: error-message helper around wrapSyntacticError (itself assumed); frame and nil-iff assumed
+//@ requires d != nil && 0 <= d.prevEnd && d.prevEnd <= len(d.buf)
+//@ modifies d.Names.unquotedNames, d.Names.unquotedNames[:cap(d.Names.unquotedNames)], d.Names.offsets[:], d.buf[:]
+//@ ensures iff: (result == nil) == (d.Tokens.needDelim(next) == delim)
+
+//@ func (*decoderState).checkDelimBeforeIOError
+//@ trusted NOT PROVED: error-message helper around checkDelim; frame assumed
+//@ requires d != nil && 0 <= d.prevEnd && d.prevEnd <= len(d.buf)
+//@ modifies d.Names.unquotedNames, d.Names.unquotedNames[:cap(d.Names.unquotedNames)], d.Names.offsets[:], d.buf[:]
+//@ ensures keeps-error: err != nil ==> result != nil
+
+// ReadToken (safety and commit protocol of the token path). Under the
+// decoder's representation invariant: every index is in bounds on every path
+// (including the cached-peek path), positions handed to the lexical wrappers are
+// inside the retained window, a rejected token (syntax error) leaves the state
+// machine untouched, an accepted token advances it by exactly one step of the
+// token's kind, the previous-token window [prevStart, prevEnd) ends at the
+// consumed position, the peek cache is cleared, and the tag flags are cleared on
+// descent into an object or array.
+//
+//@ func (*decoderState).ReadToken
+//@ split
+//@ property C01 C05 C19 C20
+//@ requires d != nil && dbInv(d.prevStart, d.prevEnd, len(d.buf), d.baseOffset) && d.baseOffset+int64(len(d.buf)) < 1<<61 && smInv(d.Tokens.Stack, d.Tokens.Last)
+//@ requires peek: d.peekPos == 0 || d.peekErr != nil || (d.prevEnd <= d.peekPos && d.peekPos < len(d.buf))
+//@ requires names: nsLocalOK(d.Names.offsets, d.Names.unquotedNames) && nsRemoteOK(d.Names.offsets, len(d.buf)) && distinctArrays(d.Names.unquotedNames, d.buf) && nsWindowQuoted(d.Names.offsets, d.buf, d.prevStart)
+//@ requires names-depth: d.Tokens.Last.isObject() ==> len(d.Names.offsets) > 0 && (!d.Flags.Get(jsonflags.AllowDuplicateNames) ==> len(d.Namespaces) > 0)
+//@ modifies everything
+//@ ensures inv: 0 <= d.prevStart && d.prevStart <= d.prevEnd && d.prevEnd <= len(d.buf)
+//@ ensures depth-step: len(d.Tokens.Stack) <= old(len(d.Tokens.Stack))+1 && len(d.Tokens.Stack)+1 >= old(len(d.Tokens.Stack))
+//@ ensures rejected: result1 != nil ==> d.Tokens.Last == old(d.Tokens.Last) && len(d.Tokens.Stack) == old(len(d.Tokens.Stack))
+//@ ensures peek-cleared: d.peekPos == 0
+//@ ensures ok-step: result1 == nil ==> len(d.Tokens.Stack) == old(len(d.Tokens.Stack))+1 || len(d.Tokens.Stack) == old(len(d.Tokens.Stack))-1 || (len(d.Tokens.Stack) == old(len(d.Tokens.Stack)) && d.Tokens.Last == old(d.Tokens.Last)+1)
+//@ ensures tags-cleared: result1 == nil && len(d.Tokens.Stack) == old(len(d.Tokens.Stack))+1 ==> !d.Flags.Has(jsonflags.TagFlags)
+//@ ensures window-end: result1 == nil ==> d.prevEnd <= len(d.buf) && d.prevStart <= d.prevEnd
